@@ -5,6 +5,8 @@ CONSTANTS
   VaryBase = TRUE
   MaxTests = 1
   RichCapture = TRUE
+  MaxSteps = 0
+  LifeWrites = {}
 INVARIANT C14_AcceptIff
 INVARIANT C14_OkIsExclusive
 INVARIANT C14_SingleClass
